@@ -218,3 +218,16 @@ fn extract_public(
 		None
 	}
 }
+
+/// Verification hooks: give the replay harness access to the private
+/// export step, without changing it.
+#[cfg(feature = "verif")]
+pub mod verif_hooks
+{
+	use super::*;
+
+	pub fn export(declaration: &Declaration) -> Option<Declaration>
+	{
+		super::export(declaration)
+	}
+}
